@@ -142,6 +142,7 @@ func analyseAppFields(c *core.Ctx, f *appDBFacts) []*appField {
 func runC09(c *core.Ctx) {
 	defer checkDirtyCover(c, "C09.dirtycover")
 	defer checkSymbolInfoAttach(c, "C09.attach")
+	defer checkEvict(c, "C09.evict")
 	f := loadAppDB(c)
 	if f == nil {
 		c.Unk("C09.dirty", "appdb.AppDB", token.NoPos, "type not found")
